@@ -436,10 +436,37 @@ impl std::ops::Neg for Quantity {
     }
 }
 
+impl Quantity {
+    /// The values of `self` and `other`, expressed in a common unit that does not depend
+    /// on the order of the operands. Like for addition and subtraction, we use the smaller
+    /// of the two units. This ensures that comparisons are symmetric: `a == b` is the same
+    /// as `b == a`, and `a < b` is the same as `b > a`.
+    fn values_in_common_unit(&self, other: &Self) -> Result<(Number, Number)> {
+        if self.unit == other.unit || self.is_zero() || other.is_zero() {
+            // A value of zero can be interpreted in any unit (see `convert_to`)
+            return Ok((self.value, other.value));
+        }
+
+        let self_factor = self.unit.to_base_unit_representation().1.to_f64();
+        let other_factor = other.unit.to_base_unit_representation().1.to_f64();
+
+        if self_factor < other_factor {
+            Ok((self.value, other.convert_to(&self.unit)?.value))
+        } else if self_factor > other_factor {
+            Ok((self.convert_to(&other.unit)?.value, other.value))
+        } else {
+            // Units of the same size (e.g. `revolution` and `turn`): the values can be
+            // compared directly. We only make sure that the units are compatible.
+            other.convert_to(&self.unit)?;
+            Ok((self.value, other.value))
+        }
+    }
+}
+
 impl PartialEq for Quantity {
     fn eq(&self, other: &Self) -> bool {
-        if let Ok(other_converted) = other.convert_to(self.unit()) {
-            self.value == other_converted.value
+        if let Ok((self_value, other_value)) = self.values_in_common_unit(other) {
+            self_value == other_value
         } else {
             false
         }
@@ -448,8 +475,8 @@ impl PartialEq for Quantity {
 
 impl PartialOrd for Quantity {
     fn partial_cmp(&self, other: &Self) -> Option<std::cmp::Ordering> {
-        let other_converted = other.convert_to(self.unit()).ok()?;
-        self.value.partial_cmp(&other_converted.value)
+        let (self_value, other_value) = self.values_in_common_unit(other).ok()?;
+        self_value.partial_cmp(&other_value)
     }
 }
 
@@ -477,13 +504,12 @@ impl Quantity {
             return QuantityOrdering::NanOperand;
         }
 
-        let Ok(other_converted) = other.convert_to(self.unit()) else {
+        let Ok((self_value, other_value)) = self.values_in_common_unit(other) else {
             return QuantityOrdering::IncompatibleUnits;
         };
 
-        let cmp = self
-            .value
-            .partial_cmp(&other_converted.value)
+        let cmp = self_value
+            .partial_cmp(&other_value)
             .expect("unexpectedly got a None partial_cmp from non-NaN arguments");
 
         QuantityOrdering::Ok(cmp)
